@@ -1,7 +1,7 @@
 """C14 — transposition.  Deciding oracle: post-contracts on the real Sequence.transpose, Bar.transpose and
 Key.transpose_key; the driver adds the transpose-back differential."""
 from vmon import gen
-from vmon.checks.common import obs, fail, both_views
+from vmon.checks.common import obs, fail, both_views, random_prefix, apply_prefix
 
 PROP = "C14"
 ALSO = ("C20",)  # Key.transpose_key's contract speaks for C20; a key that becomes undefined is a C14 violation too
@@ -37,7 +37,8 @@ def make_case(rng, i, tier):
     iv = rng.choice(INTERVALS) if rng.random() < 0.8 else rng.randint(-130, 130)
     asbar = rng.random() < 0.25
     spec = {"notes": notes, "extra": extra, "start": rng.choice(["abs", "rel", "both"])}
-    case = {"seq": spec, "interval": iv, "bar": asbar, "zone": zone}
+    case = {"seq": spec, "interval": iv, "bar": asbar, "zone": zone,
+            "prefix": random_prefix(rng, n=(1, 3)) if (i % 4 == 3 and not asbar) else []}
     if asbar:
         # a 4/4 bar worth of material (duration <= 96), no signature events of its own
         spec["notes"] = [n for n in notes if n[2] + n[3] <= 96]
@@ -51,6 +52,7 @@ def run(case, ctx):
     from scoda.elements.bar import Bar
     from scoda.misc.music_theory import Key
     s = gen.build_seq(case["seq"])
+    s = apply_prefix(s, case.get("prefix", []))
     iv = case["interval"]
     before = obs(s)
     fails = []
